@@ -185,6 +185,7 @@ def _(self) -> Nat:
 
 @contract("Decoder.read_normally_small_non_negative_whole_number", props=["C05", "C16", "C08", "C07"])
 def _(self) -> Nat:
+    opaque("ld_size", "ld_val", "ld_bad")
     # X.691 11.6: exact value and consumption as functions of the unread bit string
     raises(OutOfDataError)
     raises(DecodeError)
@@ -237,6 +238,7 @@ def _(self, value: Int):
 
 @contract("Decoder.read_unconstrained_whole_number", props=["C05", "C16", "C08"])
 def _(self) -> Int:
+    opaque("ld_size", "ld_val", "ld_bad")
     raises(OutOfDataError)
     raises(DecodeError)
     raises(ValueError)
